@@ -691,7 +691,13 @@ func minimiseAndConfirm(cfg driveCfg, eng *Engine, v Violation) (Violation, bool
 			return confirmHistory(cfg, v)
 		}
 	}
-	fails := func(cand []byte) *Violation {
+	fails := func(cand []byte) (out *Violation) {
+		defer func() {
+			if x := recover(); x != nil { // a harness bug on an odd candidate must not kill the check
+				fmt.Printf("# WARNING: candidate plan crashed the harness while minimising: %v\n", x)
+				out = nil
+			}
+		}()
 		if eng.InProcessShrink {
 			rr, err := eng.Run(cand)
 			if err != nil {
